@@ -56,3 +56,25 @@ def gen_harness(facts, outdir):
     w("fsweep_plan.json", json.dumps({"plan": plan, "skipped": skipped}, indent=1))
     leaves = [k for k, v in facts["reflect"].items() if v["is_node"] and v["code"] >= 0]
     w("leaves.def", "".join("LEAF(%s)\n" % k for k in leaves))
+
+
+def config_conditionals():
+    """places where what the library does depends on the build configuration: uses of NDEBUG and of the assert macro (whose
+    argument is not evaluated when NDEBUG is defined, as in the project's Release / RelWithDebInfo builds)"""
+    import re
+    out = []
+    roots = [os.path.join(REPO, "src"), os.path.join(REPO, "include", "ipr")]
+    for root in roots:
+        for f in sorted(os.listdir(root)):
+            p = os.path.join(root, f)
+            if not os.path.isfile(p):
+                continue
+            try:
+                lines = open(p, errors="replace").read().splitlines()
+            except OSError:
+                continue
+            for i, l in enumerate(lines, 1):
+                code = l.split("//")[0]
+                if re.search(r"\bNDEBUG\b|(?<![A-Za-z0-9_])assert\s*\(", code):
+                    out.append("%s:%d: %s" % (os.path.relpath(p, REPO), i, l.strip()[:160]))
+    return out
